@@ -51,6 +51,47 @@ def _is_registry(node, mod) -> bool:
     return d.endswith("." + REG)
 
 
+CACHES = {"functools.lru_cache", "lru_cache", "functools.cache", "cache",
+          "functools.cached_property", "cached_property"}
+
+
+def _no_cached_readers(ctx):
+    """a function that (transitively) reads the registry must not memoise
+    its result: after deregister/register it would answer from the cache"""
+    from ..callgraph import CallGraph
+    repo = ctx.repo
+    readers = set()
+    for m, q, f in repo.all_funcs():
+        for n in walk_no_nested(f, include_self=False):
+            if isinstance(n, (ast.Name, ast.Attribute)) and isinstance(
+                    getattr(n, "ctx", None), ast.Load) and \
+                    _is_registry(n, m):
+                readers.add((m.name, q))
+    ctx.floor("functions reading models_available", len(readers), 3)
+    cg = CallGraph(repo)
+    n_c = 0
+    for m, q, f in repo.all_funcs():
+        decs = []
+        for d in f.decorator_list:
+            dn = call_name(d) if isinstance(d, ast.Call) else dotted(d)
+            if dn in CACHES:
+                decs.append(dn)
+        if not decs or not (m.name == "model"
+                            or m.name.startswith("model.")):
+            # (only the registry's own look-up surface; memoised CLI
+            # conveniences keyed on a curve object are out of scope)
+            continue
+        n_c += 1
+        hit = cg.reachable([(m.name, q)]) & readers
+        ctx.check(not hit, f, f"memoised {m.name}.{q} does not depend on "
+                  "the registry",
+                  f"{m.relpath}:{q} is memoised ({decs[0]}) but reads the "
+                  f"model registry through {sorted(hit)[:2]}: after "
+                  f"deregister_model / register_model it keeps answering "
+                  f"for the previous registry contents")
+    ctx.note(f"{n_c} memoised functions examined")
+
+
 def r1_registry_writers(ctx):
     repo = ctx.repo
     logic = repo.mod("model.logic")
@@ -83,6 +124,7 @@ def r1_registry_writers(ctx):
                 if isinstance(n, ast.Subscript) and _is_registry(n.value, m) \
                         and isinstance(n.ctx, (ast.Store, ast.Del)):
                     writers.append((m, "<module>", None, n))
+    _no_cached_readers(ctx)
     ctx.floor("writers of models_available", len(writers), 2)
     for m, q, f, n in writers:
         allowed = (m.name == "model.logic"
@@ -672,6 +714,7 @@ def r5_check_raises_model_errors(ctx):
                   f"{label} (expected `{a} != {b}` guarding a raise)")
     # order test: key != p_def[ii] raises
     order = False
+    order_if = None
     for t in tests:
         tt = t.test
         if isinstance(tt, ast.Compare) and isinstance(tt.ops[0], ast.NotEq) \
@@ -679,6 +722,52 @@ def r5_check_raises_model_errors(ctx):
             txt = {norm(tt.left), norm(tt.comparators[0])}
             if any(x.startswith("p_def[") for x in txt) and "key" in txt:
                 order = True
+                order_if = t
+    if order_if is not None:
+        # ... for every parameter: the loop around the test is never left
+        # early and no iteration skips the test
+        lp = getattr(order_if, "_parent", None)
+        while lp is not None and not isinstance(lp, (ast.For, ast.While)):
+            lp = getattr(lp, "_parent", None)
+        if lp is None:
+            raise Undecided("the order test of _module_check is not in a "
+                            "loop over the parameters")
+
+        def own(node):
+            """statements of lp's body outside nested loops/functions"""
+            stack = list(lp.body)
+            while stack:
+                n = stack.pop()
+                yield n
+                if isinstance(n, (ast.For, ast.While, ast.FunctionDef,
+                                  ast.Lambda)):
+                    continue
+                stack.extend(ast.iter_child_nodes(n))
+        early = [n for n in own(lp) if isinstance(n, (ast.Break,
+                                                     ast.Return))]
+        ctx.check(not early, early[0] if early else lp,
+                  "the parameter loop of _module_check is never left early",
+                  "the loop that compares parameter_keys with the defaults "
+                  "is left early (break/return): parameters after that "
+                  "point are not checked, so defaults out of order are "
+                  "accepted and registered")
+        cfg = CFG(check_fn)
+        tn = cfg.node_containing(order_if.test)
+        head = cfg.node_of_stmt(lp)
+        skip = False
+        if tn is not None and head is not None:
+            body_ids = {n.id for n in cfg.nodes if n.ast is not None and any(
+                x is n.ast for s in lp.body for x in ast.walk(s))}
+            for n in cfg.nodes:
+                if n.id in body_ids and any(t_ == head.id
+                                            for t_, lab in cfg.succ[n.id]
+                                            if lab != "exc"):
+                    if not cfg.dominates(tn.id, n.id) and n.id != tn.id:
+                        skip = True
+        ctx.check(not skip, order_if, "every iteration reaches the order "
+                  "test",
+                  "an iteration of the parameter loop can continue without "
+                  "the order test (continue before the test)")
     ctx.check(order, check_fn, "consistency test: defaults in key order",
               "_module_check no longer rejects defaults that are out of "
               "order with parameter_keys")
